@@ -242,6 +242,8 @@ class Machine:
     cfg = self.cfg
     if x is None or isinstance(x, (bool, int, str)):
       return x
+    if isinstance(x, float) and (x != x or x in (float('inf'), float('-inf'))):
+      return T('Obj', 'nan' if x != x else ('inf' if x > 0 else '-inf'))
     if x is self.gin.REQUIRED:
       return T('REQUIRED')
     if isinstance(x, list):
@@ -289,6 +291,8 @@ class Machine:
     if t == 'req':
       return self.gin.REQUIRED
     if t == 'obj':
+      if v[1] in ('inf', '-inf', 'nan'):
+        return float(v[1])          # non-finite floats have no literal form: opaque to the model
       return AnyEq() if v[1] == 'ANY' else Opaque(v[1])
     raise ValueError(v)
 
